@@ -180,11 +180,20 @@ func (kc *Cache[V]) ForEach(k []byte, fn func(e Entry[V]) bool) {
 	defer kc.mu.RUnlock()
 	d := Distance(kc.locus, k)
 	lz := LeadingZeros(d)
-	// everything in these buckets will have lz bits matching k.
-	for i := lz; i < len(kc.buckets); i++ {
-		if !kc.buckets[i].forEach(k, fn) {
+	// everything in bucket lz has more than lz bits matching k.
+	if lz < len(kc.buckets) {
+		if !kc.buckets[lz].forEach(k, fn) {
 			return
 		}
+	}
+	// everything in the deeper buckets has exactly lz bits matching k, whichever bucket it is in:
+	// those entries have to be sorted together.
+	var deeper []Entry[V]
+	for i := lz + 1; i < len(kc.buckets); i++ {
+		deeper = kc.buckets[i].appendEntries(deeper)
+	}
+	if !forEachSorted(k, deeper, fn) {
+		return
 	}
 	// each bucket will have < lz bits matching k.
 	for i := min(lz-1, len(kc.buckets)-1); i >= 0; i-- {
@@ -385,12 +394,22 @@ func (b *bucket[V]) len() int {
 }
 
 func (b *bucket[V]) forEach(locus []byte, fn func(e Entry[V]) bool) bool {
-	var ents []Entry[V]
+	return forEachSorted(locus, b.appendEntries(nil), fn)
+}
+
+// appendEntries appends the bucket's entries to out in no particular order.
+func (b *bucket[V]) appendEntries(out []Entry[V]) []Entry[V] {
 	for _, e := range b.entries {
-		ents = append(ents, e)
+		out = append(out, e)
 	}
+	return out
+}
+
+// forEachSorted calls fn with ents in order of increasing distance from key,
+// it returns false if fn did.
+func forEachSorted[V any](key []byte, ents []Entry[V], fn func(e Entry[V]) bool) bool {
 	slices.SortFunc(ents, func(a, b Entry[V]) bool {
-		return DistanceLt(locus, a.Key, b.Key)
+		return DistanceLt(key, a.Key, b.Key)
 	})
 	for _, e := range ents {
 		if !fn(e) {
